@@ -186,7 +186,7 @@ impl Property for C11 {
     }
     fn cases(&self, tier: Tier) -> u32 {
         if tier.thorough() {
-            1_000_000
+            3_000_000
         } else {
             40_000
         }
